@@ -121,7 +121,7 @@ def match_stream(ctx, family):
     ctx.cov['evaluations'] += n
     ctx.cov['traces_validated_against_impl'] += n - len(mism)
     stats = open(d + '/oracle_stats.txt').read().strip() if os.path.exists(d + '/oracle_stats.txt') else ''
-    nstage = sum(1 for l in open(d + '/match.cases') if l.startswith('G '))
+    nstage = sum(1 for l in open(d + '/match.cases') if l.startswith('G ') or l.startswith('S '))
     ctx.cov['streams']['match-model-' + family] = dict(cases=n, nontrivial=nt, mismatches=len(mism), deadline_sensitive_diffs=slow,
                                                    stage_level_observations=nstage)
     ctx.assumptions.append('go-diff oracle: every recorded script checked to be a valid edit script between span and document (D1); '
